@@ -252,6 +252,13 @@ static int do_recv(struct side *s, const struct tcase *c, vrng *r)
     if (huge && !arena) { arena = mmap(NULL, arena_len, PROT_READ | PROT_WRITE, MAP_PRIVATE | MAP_ANONYMOUS | MAP_NORESERVE, -1, 0); if (arena == MAP_FAILED) { arena = NULL; } }
     if (huge && !arena) huge = false;
     if (huge) { static const size_t hc[] = { 1ull << 31, (1ull << 31) + 5, 1ull << 32, (1ull << 32) + 100, 3ull << 30, (1ull << 32) + (1u << 20) - 300, (1ull << 32) + (1u << 20) }; cap = hc[vrnd_n(r, 7)]; vobs("receives_with_capacity_beyond_2G", 1); }
+    if (!huge && e->bytestream && !c->volume && vrnd_p(r, 1)) {
+        /* a receive with no room at all: nothing can be returned, and nothing may change - least of all may the connection count as closed */
+        unsigned char *z = malloc(1); int rc0 = vx_receive(e, z, 0); int se0 = errno; free(z);
+        vobs("zero_capacity_receives", 1);
+        if (!(rc0 == 0 || (rc0 < 0 && se0 == EAGAIN)) && !(rc0 < 0 && veng_is_conn_errno(se0))) { char k0[96]; snprintf(k0, sizeof k0, "delivery:over-capacity:%s", vtp_name[e->tp]); vviol(cur_case, "delivery", k0, veng_detail(ctx), "xcm_receive(capacity 0) returned %d errno %d; %s", rc0, se0, ctx); }
+        if (rc0 < 0 && veng_is_conn_errno(se0)) { e->term = 2; e->term_errno = se0; return -2; }
+    }
     unsigned char *buf = huge ? arena : malloc(cap);
     memset(buf, 0xCD, huge ? 70000 : cap);
     int rc = vx_receive(e, buf, cap);
